@@ -151,7 +151,6 @@ PROPS = {
                 "lineLoop_count", "lineOf_eq", "lineOf_spec", "mem_lineSet", "ascending_lineSet",
                 "analyzeLines_spec", "analyzeLines_ascending",
             ],
-            "Solstat.Props.C15": ["entry_frame_as_modelled"],
         },
         "obs": [("line", []), ("det", [])],
         "kinds": ["LINE", "LINES"],
@@ -333,7 +332,7 @@ PROPS = {
     "C15": {
         "theorems": {
             "Solstat.Props.C16": ["entry_local"],
-            "Solstat.Props.C15": ["no_global_state", "entry_frame_as_modelled"],
+            "Solstat.Props.C15": ["no_global_state"],
             "Solstat.Props.C03": ["analyzeDir_exact"],
         },
         "obs": [("dir", []), ("threads", [])],
@@ -418,6 +417,15 @@ PROPS = {
             ],
             "Solstat.Props.MapLoc": ["allNodes_mapLoc", "extract_mapLoc", "mapLoc_comp", "mapLoc_id", "mapLoc_leftInverse", "mapLoc_congr",
                                      "filterMap_detector_equivariant"],
+            "Solstat.Props.C17b": [
+                "listEquiv_of_fwd", "optEquiv_of_fwd", "contractFunctions_mapLoc", "storageVarTable_mapLoc", "stripSubscripts_mapLoc'",
+                "payableFunction_equivariant", "constructorOrder_equivariant", "privateConstant_equivariant",
+                "privateVarsLeadingUnderscore_equivariant", "privateFuncLeadingUnderscore_equivariant", "packStorageVariables_equivariant",
+                "packStructVariables_equivariant", "stringErrors_equivariant", "shortRevertString_equivariant", "safeMath_equivariant",
+                "incrementDecrement_equivariant", "assignUpdateArray_equivariant", "constantVariables_equivariant", "sstore_equivariant",
+                "memoryToCalldata_equivariant", "immutableVariables_equivariant", "unprotectedSelfdestruct_equivariant",
+                "C17_all", "C17_all_names",
+            ],
             "Solstat.Props.C17Ext": ["loc_infinite", "extend_to_perm", "C17_sample"],
             "Solstat.Props.C02": ["lineOf_spec", "analyzeLines_spec"],
         },
@@ -427,7 +435,7 @@ PROPS = {
         "rule": "a case is one (base layout, re-layout, detector): the base layout separates every token by one space; the re-layout inserts random white space, LF/CRLF, line/block/doc comments with code-like text and multi-byte characters between all tokens (pragma directives are copied verbatim: their value is one token); STRLIT cases replace the content of every string literal by code-like text of the same length; distinct by SHA-1 of the request line; non-trivial when the detector flags something in the base layout",
         "assumptions": [
             "assumption about the parser, evaluated on every sample (TOKMAP): the re-laid-out text parses to exactly the relocated tree, tree2 = mapLoc rho tree1, with rho the map induced by the token offsets (starts to starts, ends to ends; a location's end may be the start of the following token, an empty range sits between two tokens) and rho injective on the locations of the tree; C17_sample turns that into the hypothesis of the equivariance theorems",
-            "equivariance is proved for 13 detectors and the inc/dec location pass (C17.lean); for the remaining detectors (table- and context-based: constant/immutable/sstore/pack_*/payable/private_*/constructor_order/memory_to_calldata/string_errors/short_revert/selfdestruct/assign_update/safemath import gates) the statement is covered by the correspondence (model = impl on both layouts) and the oracle on every sample, not by a theorem",
+            "equivariance is a theorem for every detector of the dispatch table (C17_all over detectorByName, all 30 names: C17_all_names); that the model detectors are the code is the correspondence (model = impl on both layouts, every sample)",
             "string-literal insensitivity (STRLIT) is checked by correspondence and oracle only (same-length replacement so that all offsets stay fixed)",
             "pragma values are compared as text by the version regex: a re-layout that changes the inside of a pragma directive changes a token, which the property excludes",
         ],
@@ -455,6 +463,8 @@ PROPS = {
             "Solstat.Props.C19": ["compose_of_distributes", "item_contribution", "distributes_filterMap", "distributes_flatMap",
                                   "contracts_sourceUnit", "distributes_perContract", "constructorOrder_distributes", "packStorage_distributes",
                                   "C19_local", "solidityPragmas_keep", "versionOf_keep"],
+            "Solstat.Props.C19b": ["compose_versionGated", "stringErrors_composes", "shortRevertString_composes", "incrementDecrement_composes"],
+            "Solstat.Props.C19c": ["storageVarEntries_parts", "writtenNames_parts", "sstore_composes", "keep_sublist", "constantVariables_composes"],
             "Solstat.Props.Compose": ["allNodes_sourceUnit", "extract_sourceUnit"],
             "Solstat.Props.C01": ["C01", "blocked_empty"],
         },
@@ -464,7 +474,7 @@ PROPS = {
         "rule": "a case is one (file, detector): the file has >= 2 top-level items; for every item the file is re-parsed with all other non-pragma items blanked (bytes -> spaces, line feeds kept) and the real detector is run on the whole and on every blanked variant; distinct by SHA-1; non-trivial when the whole file has findings",
         "assumptions": [
             "assumption about the parser, evaluated on every sample: blanking all other items yields exactly the whole tree with those items removed and all locations unchanged (`keep i`)",
-            "proved for the 22 detectors whose verdict does not look beyond the item (C19_local); string_errors / short_revert_string additionally need the version, which keep preserves (versionOf_keep); constant_variables, sstore, immutable_variables (name-keyed table: need items that do not mention each other's state variables) and increment_decrement (location subtraction: needs distinct locations) are covered by the correspondence and the oracle under those hypotheses, not by a theorem",
+            "proved for the 22 detectors whose verdict does not look beyond the item (C19_local), for string_errors / short_revert_string given that non-pragma items hold no `pragma solidity` (stringErrors_composes, shortRevertString_composes via versionOf_keep), for increment_decrement given that an increment of one item is not an unchecked prefix increment of another (incrementDecrement_composes), and for sstore / constant_variables under the property's own hypothesis that items do not write to each other's state variables (+ unique names for constant_variables): sstore_composes, constantVariables_composes; immutable_variables is covered by the correspondence and the oracle under that hypothesis, not by a theorem",
             "the two SafeMath detectors are excluded by the property (file-wide `using` by design)",
         ],
     },
